@@ -35,6 +35,11 @@ func genC14(r *Rand, tier string, i int) *h.Scenario {
 	p.PDelay = 0.1
 	p.PClientAdd = 0.6
 	sc := GenBase(r, &p)
+	// "no more refreshing": the program closes its refresh channel once its clients are done,
+	// then waits; a cancellation must still get through
+	if sc.Cont.Refresh == h.RefManual && r.Bool(0.25) {
+		sc.Main = append(sc.Main, h.Op{K: h.OpJoin}, h.Op{K: h.OpCloseRefresh})
+	}
 	sc.InjectKind = 1 + r.Intn(2)
 	sc.InjectAt = never
 	for _, b := range sc.Initial {
